@@ -535,3 +535,46 @@ SUBS = [
     Sub("history_linear", run_history, gen=lambda: histories(["elastic_dyn", "thermal", "beam"]), quick=200, thorough=900, shards=6),
     Sub("history_nonlinear", run_history, gen=lambda: histories(["phasefield", "inelastic", "hyperelastic"]), quick=120, thorough=500, shards=8),
 ]
+
+
+# ------------------------------------------------------------------------------------------
+# (added by the lead) the scenarios of the generated histories, enumerated once for every simulation kind and option, so that
+# they do not depend on what a seed happens to draw
+
+
+def _peak_ops(peak=2.0):
+    ops = []
+    for lam in (0.5, 1.0, peak, 0.75, 0.25):
+        ops += [dict(op="solve", lam=lam), dict(op="save")]
+    return ops + [dict(op="set_iter", i=3, addr="index"), dict(op="continue", i=3, addr="index"), dict(op="continue", i=2, addr="index"),
+                  dict(op="continue", i=0, addr="index"), dict(op="set_iter", i=4, addr="index"), dict(op="result_iter", i=3, addr="index")]
+
+
+def enum_scenarios(tier):
+    sq = [[0.0, 0.0], [1.0, 0.0], [1.0, 1.0], [0.0, 1.0]]
+    recipes = [dict(verts=sq, h=0.5, elemType=et, organised=(et == "QUAD4"), extrude=None, layers=0, A=None, b=None, perm=None, orphans=0)
+               for et in ("TRI3", "QUAD4")]
+    for r in recipes:
+        for folder0 in ("", "A"):
+            for solver in ("History", "HistoryDamage", "BoundConstrain"):
+                for conv in (None, 0, 3):
+                    yield dict(kind="phasefield", folder0=folder0, recipe=r, ops=_peak_ops(), audit="end", pfsolver=solver, regu="AT2", split="Miehe", conv=conv)
+            for kind in ("inelastic", "hyperelastic"):
+                yield dict(kind=kind, folder0=folder0, recipe=r, ops=_peak_ops(1.5), audit="end")
+                yield dict(kind=kind, folder0=folder0, recipe=r, audit="end",
+                           ops=[dict(op="save", initial=True), dict(op="solve", lam=1.0), dict(op="save"), dict(op="solve", lam=2.0), dict(op="save"),
+                                dict(op="set_iter", i=0, addr="index"), dict(op="continue", i=0, addr="index")])
+            for kind, algos in (("thermal", [None]), ("elastic_dyn", ["newmark", "midpoint", "hht"])):
+                for algo in algos:
+                    base = dict(kind=kind, folder0=folder0, recipe=r, audit="end")
+                    if algo:
+                        base["algo"] = algo
+                    yield dict(base, ops=[dict(op="algo", to="steady"), dict(op="solve", lam=0.5), dict(op="save"), dict(op="algo", to="transient"),
+                                          dict(op="solve", lam=0.75), dict(op="save"), dict(op="solve", lam=1.0), dict(op="save"),
+                                          dict(op="set_iter", i=0, addr="index"), dict(op="continue", i=0, addr="index"), dict(op="continue", i=1, addr="index")])
+                    yield dict(base, ops=[dict(op="save", initial=True), dict(op="solve", lam=0.5), dict(op="save"), dict(op="solve", lam=1.0), dict(op="save"),
+                                          dict(op="continue", i=0, addr="index"), dict(op="set_iter", i=1, addr="index")])
+
+
+SUBS.append(Sub("scenarios", run_history, enum=enum_scenarios,
+                doc="peak / unloading, initial-configuration save and steady-then-transient scenarios x simulation kind x solver / stopping rule / scheme x memory / disk"))
